@@ -9,6 +9,7 @@ use std::convert::TryInto;
 
 verus! {
 
+//@ body-begin
 /*@ item file=crates/lib/src/errors/kind.rs kind=enum name=GDErrorKind
 attrs {
 #[derive(PartialEq, Eq, Structural)]
@@ -363,5 +364,6 @@ after "B::read_u16_into" {
 @*/
 }
 
+//@ body-end
 } // verus!
 fn main() {}
